@@ -54,6 +54,12 @@ Theorem C02_multiple_inheritance_refuted :
 Proof. exact multiple_inheritance_refuted. Qed.
 Print Assumptions C02_multiple_inheritance_refuted.
 
+Theorem C02_enum_class_object_refuted :
+  exists V c pol o, wf_obj o = true /\ cond_ok c o = true /\ member o V = true /\ holds c o = Some pol /\
+    enum_class_object o = true /\ member o (narrow V c pol) = false.
+Proof. exact enum_class_object_refuted. Qed.
+Print Assumptions C02_enum_class_object_refuted.
+
 Example C02_narrow_guard_inhabited :
   let V := [plain (VTyped CInt); plain (VTyped CStr); plain (VKnown ONone); plain (VTyped CE)] in
   let c := CAnd (CNot (CIs ONone)) (COr (CIsInstance [CInt; CBool]) (CEq (OEnum CE 0))) in
